@@ -168,6 +168,7 @@ def buildDecl (env : Env) (dj : Json) (b0 : B) : Decl × List Val × B :=
       let b' := if dflt.vals.any hasNT || freshNT then { b' with bad := some "namedtuple default" } else b'
       (fa.1 ++ [{ name := str! (fld fj "name"), ty := fieldTy fj, dflt := dflt,
                   noOutput := bool! (fld fj "no_output"),
+                  defer := bool! (fld fj "defer"),
                   ci := bool! (fld dj "ci") }], b')) ([], b0)      -- ParserField.setup(options of the declaring class)
     let kind := match str! (fld dj "kind") with
       | "schema" => DKind.schema | "dataclass" => DKind.dataclass | _ => DKind.func
@@ -211,6 +212,7 @@ def atomOf (j : Json) : Val := match j with
 
 structure Run where
   w : World
+  roptRoots : List Nat := []     -- result roots of parses made under running options
   fpool : List Val := []    -- `force_default` objects of the running-options pool (each built once)
   inh : List Nat := []      -- per declaration: how many of its fields are taken over from a base class
   outs : List Outcome := []
@@ -249,23 +251,39 @@ def stepJ (legacy : Bool) (envJ : Json) (r : Run) (j : Json) : Run :=
             | none => (obj? rj "force_default").map atomOf
           { ignoreRequired := bool! (fld rj "ignore_required") || force.isSome,
             noDefault := bool! (fld rj "no_default"),
+            deferDefault := bool! (fld rj "defer_default"),
             force := force,
             dfs := match obj? rj "data_first_search" with
               | some d => if isNull d then none else some (bool! d)
               | none => none }
-        fin (stp r.w (.call (nat! (fld j "target")) (nat! (fld j "wrapper")) (b.next - r.w.next) inp ro))
+        let r' := fin (stp r.w (.call (nat! (fld j "target")) (nat! (fld j "wrapper")) (b.next - r.w.next) inp ro))
+        if isNull rj then r' else { r' with roptRoots := (r.w.roots.length + 1) :: r.roptRoots }
   | "mutate" =>
       match r.w.root (nat! (fld j "root")) with
       | none => { r with outs := r.outs ++ [.skip] }
       | some rv =>
         match walkPath rv ((arr! (fld j "path")).map nat!) false with
         | some (.node i k _ _, false) =>
-            let v := atomOf (fld j "val")
-            let act : Option Act := match str! (fld j "act"), k.base with
-              | "append", .list => some (.append v)
-              | "add", .set => some (.add v)
-              | "setkey", .dict => some (.setkey ((obj? j "key").map str! |>.getD "zz") v)
-              | _, _ => none
+            -- the inserted value: an atom, or an object of an (older) root the caller holds
+            let vj := fld j "val"
+            let v : Option Val := match obj? vj "root" with
+              | some rr => match r.w.root (nat! rr) with
+                | some src => match walkPath src ((arr! (fld vj "path")).map nat!) false with
+                  | some (x, false) => some x
+                  | _ => none
+                | none => none
+              | none => some (atomOf vj)
+            let key := (obj? j "key").map str! |>.getD "zz"
+            let act : Option Act := match str! (fld j "act"), k.base, v with
+              | "append", .list, some v => if v.mutIds.contains i then none else some (.append v)
+              | "add", .set, some v => if v.hashable then some (.add v) else none
+              | "setkey", .dict, some v => if v.mutIds.contains i then none else some (.setkey key v)
+              | "clear", .list, _ => some .clear
+              | "clear", .set, _ => some .clear
+              | "clear", .dict, _ => some .clear
+              | "pop", .list, _ => some .popLast
+              | "delkey", .dict, _ => some (.delkey key)
+              | _, _, _ => none
             match act with
             | some a => fin (stp r.w (.mutate i a))
             | none => { r with outs := r.outs ++ [.skip] }
@@ -282,6 +300,12 @@ def stepJ (legacy : Bool) (envJ : Json) (r : Run) (j : Json) : Run :=
           if ok && (match v with | .num _ => true | _ => false) then fin (stp r.w (.setattr root fname (atomOf v)))
           else { r with unm := some "setattr outside the fragment", outs := r.outs ++ [.unmodelled "setattr"] }
       | _ => { r with outs := r.outs ++ [.skip] }
+  | "getattr" =>
+      let root := nat! (fld j "root")
+      if r.roptRoots.contains root then
+        { r with unm := some "attribute access on an instance built under running options",
+                 outs := r.outs ++ [.unmodelled "getattr"], w := { r.w with roots := r.w.roots ++ [none] } }
+      else fin (stp r.w (.getattr root (str! (fld j "field"))))
   | "copy" =>
       match r.w.root (nat! (fld j "root")) with
       | some (.node _ (.inst k _) _ _) =>
